@@ -36,9 +36,14 @@ type cas struct {
 	Blame   string   `json:"blame"`
 	Hazards []hz     `json:"hazards"`
 	Text    []string `json:"text"` // a text of the Text family (characters), loaded as a module
+	Deep    int      `json:"deep"` // a text of this nesting depth (statements inside statements)
+	Shape   string   `json:"shape"`
 }
 
 func classOf(c *cas) string {
+	if c.Deep > 0 {
+		return "deep:" + c.Shape
+	}
 	if c.Text != nil {
 		return "text"
 	}
@@ -482,7 +487,7 @@ func ReadBack(ms *yang.Modules) {
 		for root.Parent != nil {
 			root = root.Parent
 		}
-		if _, ok := root.Node.(*yang.Module); ok { // an entry of a module's tree (not a detached error entry)
+		if root.Node != nil { // (a detached error entry has no node at all)
 			e.InstantiatingModule()
 		}
 		var types func(t *yang.YangType, d int)
@@ -637,6 +642,25 @@ func execCase(kind byte, body []byte) *core.Verdict {
 		return &core.Verdict{Infra: "case: " + err.Error()}
 	}
 	v := &core.Verdict{OK: true, Class: classOf(&c), NT: len(c.Hazards) >= 1 || len(c.Text) >= 3}
+	if c.Deep > 0 {
+		// recursion that grows with the input must end in an error, not in the goroutine stack
+		v.Class, v.NT = "deep:"+c.Shape, true
+		var t string
+		switch c.Shape {
+		case "junk":
+			t = strings.Repeat("a{", c.Deep)
+		case "junk-closed":
+			t = strings.Repeat("a {", c.Deep) + strings.Repeat("}", c.Deep)
+		case "containers":
+			t = "module m { namespace \"urn:m\"; prefix m;\n" + strings.Repeat("container c {", c.Deep) + " leaf l { type string; } " + strings.Repeat("}", c.Deep) + "}"
+		case "groupings":
+			t = "module m { namespace \"urn:m\"; prefix m;\n" + strings.Repeat("grouping g { container c {", c.Deep/2) + " leaf l { type string; } " + strings.Repeat("}}", c.Deep/2) + "}"
+		case "unions":
+			t = "module m { namespace \"urn:m\"; prefix m; leaf l {\n" + strings.Repeat("type union { ", c.Deep) + " type string; " + strings.Repeat("}", c.Deep) + "}}"
+		}
+		Exercise(map[string]string{"t.yang": t}, []string{"t.yang"})
+		return v
+	}
 	if c.Text != nil {
 		t := strings.ReplaceAll(strings.Join(c.Text, ""), "E", "é")
 		// the text alone, and wrapped so that the builder and resolver see it too
@@ -857,10 +881,18 @@ func check(r *core.Run) {
 		r.DirectionA("hazard", core.TLCOpts{Module: "MCText", Cfg: "MCText_" + tc + ".cfg", Workers: 16, HeapGB: 16, Timeout: 0}, nil)
 	}
 	core.SubmitCollect(r, "hazard", 'B', nB, nil)
+	// nesting depth: texts whose recursion depth grows with the input (harness-chosen extremes of "any byte string")
+	var deep [][]byte
+	for _, sh := range []string{"junk", "junk-closed", "containers", "groupings", "unions"} {
+		for _, d := range []int{300, 20000, 3000000} {
+			deep = append(deep, []byte(fmt.Sprintf(`{"deep":%d,"shape":%q}`, d, sh)))
+		}
+	}
+	r.SubmitAll("hazard", 'A', deep)
 	// sequences of texts: the histories of Session.tla (loads of good and bad texts, Process, queries in any order),
 	// replayed for crashes and hangs only
 	core.CaseSuffix = `,"prop":"C01"}`
-	for _, sc := range []string{"MCSession_quick.cfg", "MCSession_quick2.cfg"} {
+	for _, sc := range []string{"MCSession_quick.cfg", "MCSession_quick2.cfg", "MCSession_quick3.cfg"} {
 		r.DirectionA("session", core.TLCOpts{Module: "MCSession", Cfg: sc, Workers: 12, HeapGB: 16, Timeout: 0}, nil)
 	}
 	core.CaseSuffix = ""
